@@ -735,6 +735,13 @@ def orc_sequence(case):
     if np.allclose(wants[0, 0], wants[1, 1]) or ((0, 1) in wants and np.allclose(wants[0, 0], wants[0, 1])):
         return 'GENERATOR ERROR: two calls of the sequence have the same expected RDM'
     held, first = None, None
+    if case.get('prelude'):
+        # what a caller typically does first: look at single folds / conditions of the dataset (queries, which leave it as it is)
+        for a in args:
+            od = a['ds'].obs_descriptors
+            for key in [k for k in ('fold', 'cond') if k in od]:
+                a['ds'].subset_obs(key, list(od[key])[0])
+                a['ds'].subset_obs(key, [list(od[key])[0], list(od[key])[-1]])
     for step, (i, j) in enumerate(steps):
         ds, noise_arg = args[i]['ds'], args[j]['noise_arg']
         name = 'call %d of the sequence A/NA, B/NB, A/NA, A/NB (dataset %s with precisions %s; A and B have the same shape and labels)' % (
@@ -1205,6 +1212,12 @@ def tier_c(run, thorough):
                             case['data'] = 'uint8'
                         bd.check(orc_sequence, case, '%s-%s,call-sequence%s' % (method, _noise_class(mode), ',default-folds' if default else ''),
                                  function='calc_rdm_crossnobis' if method == 'crossnobis' else 'calc_rdm_poisson_cv')
+                        if not default and mode in ('none', 'single'):
+                            # the caller has looked at single folds / conditions of the dataset before (rows not sorted by condition)
+                            c2, f2 = _design(C, M, R, ckinds[k % 5], fkinds[(k // 5) % 4], ('cond-major', 'shuffled')[k % 2], seed=k + 3)
+                            bd.check(orc_sequence, dict(case, conds=c2, folds=f2, prelude=True),
+                                     '%s-%s,call-sequence,queries-before' % (method, _noise_class(mode)),
+                                     function='calc_rdm_crossnobis' if method == 'crossnobis' else 'calc_rdm_poisson_cv')
     bd.done()
     bds.append(bd)
 
